@@ -1,7 +1,7 @@
 """C13 - Continuum behaves as sorted unit sets per annotator under any history.
 
 Seeded operation histories (<= 60 operations on <= 4 live continua; alphabet:
-3 annotators, 6 segments, labels {None, 'a', 'b'}) are executed against the
+3 annotators, 6 segments, labels {None, 'a', 'b', ''}) are executed against the
 library and against refmodel.continuum_model; after EVERY operation every
 observable of every live continuum is compared with the model:
 
@@ -46,7 +46,7 @@ TIERS = {
 }
 RULE = ("case = seeded history of 5..60 operations (new, add, add zero-length, add_annotator, remove present / absent, merge in place / "
         "out of place, +, copy, copy_flush, reset_bounds, add_timeline, add_annotation, [] access) over <= 4 live continua, 3 annotators, "
-        "6 segments (incl. negative start, shared start or end, nested), labels {None,'a','b'}; all observables (incl. the derived counts avg/max units per annotator, average unit length, category weights) compared with the "
+        "6 segments (incl. negative start, shared start or end, nested), labels {None,'a','b',''}; all observables (incl. the derived counts avg/max units per annotator, average unit length, category weights) compared with the "
         "reference model after every operation. distinct_nontrivial = distinct model states (content of all live continua) reached "
         "that hold >= 2 units")
 ASSUMPTIONS = [
@@ -59,7 +59,8 @@ COMPONENTS = {"real": ["pygamma_agreement.Continuum / Unit", "sortedcontainers",
 
 ANNOTS = ["A", "B", "C"]
 SEGS = [(0.0, 1.0), (0.0, 2.0), (1.0, 2.0), (1.0, 3.5), (2.5, 4.0), (-1.5, 0.5)]
-LABELS = [None, "a", "b"]
+# "" is a legal label (a csv row with an empty category) and must stay distinct from "unlabelled"
+LABELS = [None, "a", "b", None, "a", "b", ""]
 MAX_LIVE = 4
 
 
